@@ -194,6 +194,15 @@ Definition do_commit (j : Z) (s : st) : st * list word :=
     (s', ws ++ [[6; 1; before; ci_ref (get (heap s') (rp_ci p))]])
   end.
 
+(* an RPC that the channel rejects while creating the client stream, after the config
+   selector ran (stream.go newClientStream: the deferred endOfClientStream runs the OnFinish
+   hook that calls OnCommitted): selected and committed within the same step *)
+Definition do_early (i c : Z) (s : st) : st * list word :=
+  let '(s1, ws1) := do_select i c s in
+  if Nat.eqb (length (rpcs s1)) (length (rpcs s)) then (s1, ws1) else
+  let '(s2, ws2) := do_commit (Z.of_nat (length (rpcs s))) s1 in
+  (s2, ws1 ++ ws2).
+
 (* after every step: uncommitted RPCs (id, key, interceptor closed = 0: observed, not
    modelled) and activeClusters/activePlugins (key, refCount, unsubscribe calls) *)
 Definition snapshot (s : st) : word :=
@@ -206,6 +215,8 @@ Definition snapshot (s : st) : word :=
          [2; i; c]      SelectConfig,  obs [2; ok; key], snapshot
          [3; j]         OnCommitted of RPC j, obs: emissions, [6; first; before; after], snapshot
          [4]            resource error, obs: emissions, snapshot
+         [5; i; c]      RPC through a real channel that fails in newClientStream after
+                        SelectConfig, obs [2; ok; key], emissions, [6; 1; before; after], snapshot
    anything else is ignored (no observation). *)
 Definition step (s : st) (op : word) : st * list word :=
   match op with
@@ -226,6 +237,11 @@ Definition step (s : st) (op : word) : st * list word :=
     else if tag =? 4 then
       match a with
       | [] => let '(s', ws) := do_error s in (s', ws ++ [snapshot s'])
+      | _ => (s, [])
+      end
+    else if tag =? 5 then
+      match a with
+      | [i; c] => let '(s', ws) := do_early i c s in (s', ws ++ [snapshot s'])
       | _ => (s, [])
       end
     else (s, [])
